@@ -461,32 +461,70 @@ func (c *Ctx) checkRandomFrame() {
 				k, isK := constInt(st.Val)
 				L.Check(isK && k == gap, "random-frame", r.label, cons, pos, "stores the GAP constant", "AddGaps stores something other than the GAP constant")
 			case "Mutate":
-				okTab := isTable == "stdaminoacid" || isTable == "stdnucleotides"
-				// guards: cell != GAP, POINT, OTHER on the same cell dominate the store
+				// the stored byte is an element of an alphabet table: the table may be chosen once
+				// before the loops (a φ of the two tables); which table serves which alphabet is the
+				// alphabet-table rule's business
+				okTab := false
+				if srcBase != nil {
+					okTab = true
+					for _, lf := range phiLeaves(srcBase) {
+						gu, ok := lf.(*ssa.UnOp)
+						if !ok {
+							okTab = false
+							continue
+						}
+						g, ok := gu.X.(*ssa.Global)
+						if !ok || (g.Name() != "stdaminoacid" && g.Name() != "stdnucleotides") {
+							okTab = false
+						} else if isTable == "" {
+							isTable = g.Name()
+						} else if !strings.Contains(isTable, g.Name()) {
+							isTable += "/" + g.Name()
+						}
+					}
+				}
+				// guards: on every path to the store, the written cell was found different from GAP,
+				// POINT and OTHER — by comparisons in the function or by a boolean helper of the
+				// module whose true result implies them
 				need := map[int64]bool{gap: false, point: false, other: false}
-				for d := st.Block(); d != nil; d = d.Idom() {
-					for _, p := range d.Preds {
-						ifi, ok := p.Instrs[len(p.Instrs)-1].(*ssa.If)
-						if !ok || p.Succs[0] != d || len(d.Preds) != 1 {
-							continue
+				bf := computeBranchFacts(fn)
+				sameCell := func(v ssa.Value) bool {
+					u, ok := stripConv(v).(*ssa.UnOp)
+					if !ok || u.Op != token.MUL {
+						return false
+					}
+					cia, ok := u.X.(*ssa.IndexAddr)
+					return ok && lc.canon(cia.X) == lc.canon(ia.X) && lc.of(cia.Index).equal(lc.of(ia.Index))
+				}
+				allInstrs(fn, func(in ssa.Instruction) {
+					switch x := in.(type) {
+					case *ssa.BinOp:
+						if (x.Op != token.NEQ && x.Op != token.EQL) || !sameCell(x.X) {
+							return
 						}
-						bo, ok := ifi.Cond.(*ssa.BinOp)
-						if !ok || bo.Op != token.NEQ {
-							continue
+						k, isK := constInt(x.Y)
+						if _, want := need[k]; !isK || !want {
+							return
 						}
-						k, isK := constInt(bo.Y)
-						if !isK {
-							continue
+						if bf.knownAt(st.Block(), x, x.Op == token.NEQ) {
+							need[k] = true
 						}
-						if u, ok := bo.X.(*ssa.UnOp); ok && u.Op == token.MUL {
-							if cia, ok := u.X.(*ssa.IndexAddr); ok && lc.canon(cia.X) == lc.canon(ia.X) && lc.of(cia.Index).equal(lc.of(ia.Index)) {
-								if _, want := need[k]; want {
-									need[k] = true
+					case *ssa.Call:
+						g := x.Common().StaticCallee()
+						if g == nil || len(g.Blocks) == 0 || len(x.Common().Args) != 1 || !sameCell(x.Common().Args[0]) {
+							return
+						}
+						for _, truth := range []bool{true, false} {
+							if bf.knownAt(st.Block(), x, truth) {
+								for k, op := range helperParamFacts(g, 0, truth) {
+									if _, want := need[k]; want && op == "!=" {
+										need[k] = true
+									}
 								}
 							}
 						}
 					}
-				}
+				})
 				okGuard := need[gap] && need[point] && need[other]
 				L.Check(okTab && okGuard, "random-frame", r.label, cons, pos, "stores an element of "+isTable+" under cell != GAP, POINT, OTHER",
 					fmt.Sprintf("substitution does not store an alphabet letter under the non-gap guard (alphabet table: %v, guards on the written cell for GAP/POINT/OTHER: %v/%v/%v)", okTab, need[gap], need[point], need[other]))
@@ -496,7 +534,7 @@ func (c *Ctx) checkRandomFrame() {
 	L.Floor("random-frame", 12, "row stores of six operations")
 	c.checkAlphabetConsts("alphabet-table", map[string]bool{"(*align).Mutate": true})
 	L.Rule("alphabet-table", "the residue table used by Mutate is the one of the alignment's alphabet")
-	L.Floor("alphabet-table", 4, "stdaminoacid/stdnucleotides, length and element use")
+	L.Floor("alphabet-table", 2, "both residue tables are used in Mutate")
 
 	// ShuffleSequences: stores into the row list are loads from the row list
 	r := c.fn("align", "*seqbag", "ShuffleSequences")
